@@ -6,33 +6,24 @@ package main
 import (
 	"encoding/json"
 	"fmt"
+	"io"
 	"os"
-	"strconv"
 
 	"github.com/runreveal/pql/zzverif/c14sim"
 )
 
 func main() {
-	if len(os.Args) != 3 {
-		fmt.Fprintln(os.Stderr, "usage: c14ref <pool.json> <key id>")
-		os.Exit(2)
-	}
-	b, err := os.ReadFile(os.Args[1])
+	// the key arrives as JSON on standard input
+	b, err := io.ReadAll(os.Stdin)
 	if err != nil {
 		fmt.Fprintln(os.Stderr, err)
 		os.Exit(2)
 	}
-	var pool []*c14sim.Key
-	if err := json.Unmarshal(b, &pool); err != nil {
+	k := new(c14sim.Key)
+	if err := json.Unmarshal(b, k); err != nil {
 		fmt.Fprintln(os.Stderr, err)
 		os.Exit(2)
 	}
-	id, err := strconv.Atoi(os.Args[2])
-	if err != nil || id < 0 || id >= len(pool) {
-		fmt.Fprintln(os.Stderr, "bad key id")
-		os.Exit(2)
-	}
-	k := pool[id]
 	form := k.OptForms()[0]
 	if k.API == "compile" && len(k.Params) > 0 {
 		form = "private"
